@@ -50,6 +50,10 @@ CHECKS = {
          "Full product of 63 longitudes (seam values + grid) x 25 latitudes (poles and 1e-6..1 deg from them) x 5 obliquities / 12 observer latitudes / galactic, both directions of each pair, against vector algebra on the sphere (1e-9 deg); all ordered pairs of a 40-direction subset for rigidity; 1 120 constructed pairs for the separation / position-angle metric and 400 triples for the enclosing circle.",
          "Real-valued quantifier: verdict holds on the lattice (poles, seam, code constants +- small offsets); oracle arithmetic is double precision vector algebra (error ~1e-13 deg).",
          "DESIGN.md 3/C05"),
+ "C06": (EX, "exhaustive enumeration of all ordered epoch pairs and triples x a pole-dense direction lattice; chains of depth 2-3 (there-and-back, A->B->C vs A->C) judged by vector algebra",
+         "All 225 ordered pairs of 15 epochs (J2000 +- 0..20 centuries) x 110 directions (poles, both sides of the 85-degree branch) for identity, rigidity, there-and-back, route agreement and the Newcomb variant; all 125 ordered epoch triples x 20 directions for composition; proper motions {0, +-1, +-10 arcsec/yr}^2; orbital elements incl. retrograde and nearly ecliptic orbits.",
+         "Real-valued quantifier: finite lattice of epochs and directions; tolerances are those of the statement.",
+         "DESIGN.md 3/C06"),
 }
 
 NOT_YET = {}
